@@ -43,7 +43,8 @@ Spec == Init /\ [][Next]_vars
 RECURSIVE SiteToks(_)
 SiteToks(i) == IF i > Len(SiteOrder) THEN <<>>
                ELSE (IF SiteOrder[i] \in sites THEN SiteMenu[SiteOrder[i]] ELSE <<>>) \o SiteToks(i + 1)
-doc == << D("TAG", <<"@g1">>, FALSE, "", ""),
+doc == << D("ENUM", <<"@e0">>, FALSE, "en", ""),          \* a root ENUM before everything: enums keep document order through a paste
+          D("TAG", <<"@g1">>, FALSE, "", ""),
           D("MACRO", <<"@m2">>, TRUE, "", ""), Resp("404"), CloseTok,
           D("MACRO", <<"@m1">>, TRUE, "", "") >> \o BodyMenu[body] \o << CloseTok >> \o SiteToks(1)
 
